@@ -647,3 +647,27 @@ Definition traced_bindings (g : gen_impl) (i : nat) : list binding :=
   end.
 
 Definition is_err {A E} (r : result A E) : Prop := exists e, r = Err e.
+
+(* The rejection clauses of the property as a decidable predicate (used by the correspondence
+   check to decide which side is wrong when model and implementation disagree on a verdict):
+   the names of the clauses of C15_rejects_in_macro whose hypotheses hold for [s]. *)
+Definition reject_clauses (s : shape) : list string :=
+  (if is_union s then ["union"] else [])
+  ++ (if Nat.eqb (List.length (mode_idents_of s)) 0 then ["missing_mode"] else [])
+  ++ (if Nat.leb 2 (List.length (mode_idents_of s)) then ["two_modes"] else [])
+  ++ (if Nat.leb 2 (List.length (filter is_collect_attr (s_attrs s))) then ["dup_type_attr"] else [])
+  ++ (if require_static_mode s then [] else
+        (if is_enum s && existsb (fun v => existsb is_collect_attr (v_attrs v)) (variants s)
+         then ["variant_attr"] else [])
+        ++ (if existsb (fun v => existsb (fun f =>
+                 existsb (fun a => is_collect_attr a && negb (attr_is_require_static a) && negb (attr_is_empty_list a))
+                         (f_attrs f)) (v_fields v)) (variants s)
+            then ["field_attr"] else [])
+        ++ (if existsb (fun v => existsb (fun f => Nat.leb 2 (List.length (filter is_collect_attr (f_attrs f))))
+                                         (v_fields v)) (variants s)
+            then ["dup_field_attr"] else [])
+        ++ (if Nat.leb 2 (List.length (lifetimes_of (s_generics s))) && negb (has_gc_lifetime_item s)
+            then ["lifetimes"] else [])).
+
+Definition spec_must_reject (s : shape) : bool :=
+  match reject_clauses s with [] => false | _ => true end.
